@@ -110,16 +110,17 @@ def run(chk, prog):
     chk.floor("R2-accumulations", n2, 1)
     # ---- R3 ------------------------------------------------------------------------------------
     setup_names = {f["qname"] for f in m.setup}
+    helper_names = {f["qname"] for f in m.setup if f.get("kind") != "ctor"}
     callers = {}
     for f in prog.functions.values():
         if not f.get("body"):
             continue
         for x in A.walk(f["body"]):
-            if x.get("callee") in ("fft::prepareFFT", "fft::fft_alloc_real", "fft::fft_alloc_complex", "vfps::ElectricField::_initWakeLossFFT"):
+            if x.get("callee") in ("fft::prepareFFT", "fft::fft_alloc_real", "fft::fft_alloc_complex") or x.get("callee") in helper_names:
                 callers.setdefault(x["callee"], set()).add(f["qname"])
         for i in f.get("inits", []):
             for x in A.walk(i["expr"]):
-                if x.get("callee") in ("fft::prepareFFT", "fft::fft_alloc_real", "fft::fft_alloc_complex", "vfps::ElectricField::_initWakeLossFFT"):
+                if x.get("callee") in ("fft::prepareFFT", "fft::fft_alloc_real", "fft::fft_alloc_complex") or x.get("callee") in helper_names:
                     callers.setdefault(x["callee"], set()).add(f["qname"])
     for cal, who in sorted(callers.items()):
         who = {w for w in who if not w.startswith("fft::")}
